@@ -12,6 +12,7 @@ import (
 	"fmt"
 	"math/rand"
 	"os"
+	"strings"
 	"testing"
 
 	libshare "github.com/celestiaorg/go-square/v4/share"
@@ -136,6 +137,18 @@ func dumpRange(r shwap.RangeNamespaceData) string {
 		s += "|" + dumpShares(row)
 	}
 	return s + " first=" + dumpProof(r.FirstIncompleteRowProof) + " last=" + dumpProof(r.LastIncompleteRowProof)
+}
+
+// trunc keeps the proof part of a dump readable (share bytes are long)
+func trunc(s string) string {
+	if i := strings.Index(s, " first="); i >= 0 {
+		t := s[i:]
+		if len(t) > 260 {
+			t = t[:260] + "..."
+		}
+		return s[:min(i, 12)] + "..." + t
+	}
+	return s
 }
 
 func proofMatches(p *nmt.Proof, m mProof) bool {
@@ -479,9 +492,29 @@ func (d *drv) containerCase(ctx context.Context, rnd *rand.Rand, uni map[int]*ed
 				fail("codec-error", dumpRange(r), err.Error())
 				return
 			}
+			wire := append([]byte{}, buf.Bytes()...)
 			if _, err := back.ReadFrom(&buf); err != nil {
 				fail("codec-error", dumpRange(r), err.Error())
 				return
+			}
+			// DecodeIgnoresReceiver: the same bytes decoded into a value that already holds another
+			// container (first and last partial-row proof set) -- what the shrex getter does when it
+			// reuses its buffer across attempts -- must give the same result
+			if w >= 2 {
+				dirty, err := uni[w].RangeNamespaceData(ctx, 1, w+1)
+				if err != nil || dirty.FirstIncompleteRowProof == nil || dirty.LastIncompleteRowProof == nil {
+					d.rep.Inconclusivef("container: cannot build the two-proof receiver for w=%d: %v", w, err)
+				} else if _, err := dirty.ReadFrom(bytes.NewReader(wire)); err != nil {
+					fail("codec-error", dumpRange(r), "into used receiver: "+err.Error())
+					return
+				} else if dumpRange(dirty) != dumpRange(r) {
+					d.violate("container/range/stream/decode-depends-on-receiver",
+						fmt.Sprintf("range %+v: ReadFrom into a value that held range [1,%d) keeps a proof of the old container: sent %q, decoded %q",
+							c.X, w+1, trunc(dumpRange(r)), trunc(dumpRange(dirty))), c)
+					return
+				} else {
+					d.rep.Count("container_range_reused_receiver_ok", 1)
+				}
 			}
 		case "json":
 			b, err := json.Marshal(r)
